@@ -1032,13 +1032,17 @@ def r22_entry_and_modify(text):
                 continue
             ao = kc + 1 + t.end() - 1
             ac = L.match_close(m, ao)
-            cl = re.match(r"\s*\|\s*([A-Za-z_][A-Za-z0-9_]*)\s*\|", m[ao + 1:ac])
+            cl = re.match(r"\s*\|\s*([A-Za-z_][A-Za-z0-9_]*)\s*(?::([^|]*))?\|", m[ao + 1:ac])   # |x| or |x: &mut T|
             if not cl:
                 continue
-            body = text[ao + 1 + cl.end():ac].strip()
+            body = text[ao + 1 + cl.end():ac].strip().rstrip(",").strip()   # rustfmt leaves a trailing comma after a multi-line closure argument
             if not body.startswith("{"):
                 body = "{ " + body + "; }"
             var = cl.group(1)
+            if cl.group(2) and cl.group(2).strip():
+                # the closure's parameter annotation is kept as a typed re-binding (it may drive type inference)
+                ty = text[ao + 1 + cl.start(2):ao + 1 + cl.end(2)].strip()
+                body = "{ let %s: %s = %s; %s }" % (var, ty, var, body)
             rest = m[ac + 1:]
             t2 = re.match(r"\s*\.\s*or_insert\s*\(", rest)
             if t2:
@@ -1082,6 +1086,17 @@ def r23_hashset_into_iter(text, exprs):
     return text, n
 
 
+def r23_hashset_ref_iter(text, exprs):
+    """R23 (by-reference HashSet form): `for PAT in EXPR` where EXPR is a `&HashSet<T>` -> `for PAT in verif_hashset_ref_elems(EXPR)`:
+    the Vec of references to the set's elements in an unspecified order, each exactly once (contract of `HashSet::iter`)."""
+    n = 0
+    for e in exprs:
+        pat = r"(\bfor\s+[^{;]*?\bin\s+)" + re.escape(e) + r"(\s*\{)"
+        text, k = re.subn(pat, lambda mo: mo.group(1) + "verif_hashset_ref_elems(" + e + ")" + mo.group(2), text)
+        n += k
+    return text, n
+
+
 def r23_hashmap_into_iter(text, exprs):
     """R23: `for PAT in EXPR` where unit.toml declares EXPR to be a HashMap consumed by value ->
     `for PAT in verif_hashmap_into_entries(EXPR)`: the contract-only helper returns the Vec of the map's entries in an
@@ -1090,7 +1105,8 @@ def r23_hashmap_into_iter(text, exprs):
     n = 0
     for e in exprs:
         pat = r"(\bfor\s+[^{;]*?\bin\s+)" + re.escape(e) + r"(\s*\{)"
-        text, k = re.subn(pat, lambda mo: mo.group(1) + "verif_hashmap_into_entries(" + e + ")" + mo.group(2), text)
+        base = e[:-len(".into_iter()")] if e.endswith(".into_iter()") else e   # explicit `.into_iter()` = the same by-value iteration
+        text, k = re.subn(pat, lambda mo: mo.group(1) + "verif_hashmap_into_entries(" + base + ")" + mo.group(2), text)
         n += k
     return text, n
 
